@@ -8,5 +8,7 @@ void nondet_fill(void* p, unsigned long n);    // arbitrary bytes, opaque to the
 void vassert(int cond, int id);                // property assertion; id = property*100 + k
 void vassume(int cond);                        // documented precondition only
 void vwitness(int id);                         // reachability witness: must come back FAILURE (id >= 9000)
-void vrec(int a, int b);                       // trace event for native-vs-translated comparison (no-op under CBMC)
+void vrec(int a, int b);
+unsigned vmem_equal(const void* a, const void* b, unsigned long n);   // byte comparison / copy with their own loop ids
+void vmem_copy(void* d, const void* s, unsigned long n);                       // trace event for native-vs-translated comparison (no-op under CBMC)
 }
